@@ -241,6 +241,9 @@ def layout_guard(prog, R):
             adt = prog.adts.get('%s::%s' % (fmt, adt_name))
             have = set(fd['name'] for fd in adt['variants'][0]['fields']) if adt else set()
             miss += ['%s.%s' % (adt_name, n) for n in want[adt_name] if n not in have]
+            # state added to the reader (a cached coordinate, a flag): the rules were not confirmed with it
+            if adt_name == 'Reader' and adt:
+                miss += ['%s.%s (new)' % (adt_name, n) for n in sorted(have - set(want[adt_name]))]
         miss += [e for e in want['enums'] if e not in prog.adts]
         if miss:
             changed[fmt] = miss
@@ -253,5 +256,5 @@ def layout_guard(prog, R):
             if ('%s::' % fmt) in it['key'] or it['key'].endswith(':%s' % fmt) or (':%s:' % fmt) in it['key']:
                 it['ok'] = True
                 it['undecided'] = True
-                it['detail'] = 'no verdict: the private layout of the %s reader changed (%s not found) and this rule identifies the reader state by those names - it reported: %s' % (fmt, ', '.join(miss), it['detail'][:160])
+                it['detail'] = 'no verdict: the private layout of the %s reader changed (%s: missing / new) and this rule identifies the reader state by those names - it reported: %s' % (fmt, ', '.join(miss), it['detail'][:160])
     return changed
